@@ -163,6 +163,10 @@ func (c closer) Close() error {
 		}
 	}
 	d.rec(Event{Kind: "closeh", Name: h.name, Handle: c.h})
+	if d.fault("closeh", h.name[len(h.name)-4:], 0) != 0 {
+		// the handle is released, but its Close reports an error (EIO on close)
+		return ErrInjected
+	}
 	return nil
 }
 
